@@ -18,7 +18,7 @@ RULE = (
     "both ISAs (x86 r x y z i m[b][o][i][s]; AArch64 w x b h s d q v[bhsd] i m[b][o][i][s][r][p]), measurements at "
     "snap points times (1 +- {0, 0.03, 0.049, 0.051, 0.08}) and between snap points, zero and large values, printed "
     "in the tools' formats; ibench TP/LT pairs in either order, TP-only, LT-only; asmbench files with a structural "
-    "corruption (missing blank line, extra line) at a generated block. Oracle: the stream emitted by "
+    "corruption (missing blank line, extra line, non-blank separator line that leaves later blocks aligned) at a generated block. Oracle: the stream emitted by "
     "'osaca --arch A --import T FILE' parsed as plain YAML contains exactly one entry per imported form with the "
     "operands of the README's decoder, throughput = round(1/n,5) for the n in 1..10 within 5%, latency = nearest "
     "integer within 5%, otherwise missing; entries before a malformed asmbench block present, none from it on. "
@@ -114,7 +114,7 @@ def cases(draw):
                       else "both"})
     corrupt = None
     if bench == "asmbench" and draw(st.integers(0, 2)) == 0:
-        corrupt = [draw(st.sampled_from(["missing-blank", "extra-line"])), draw(st.integers(0, len(forms) - 1))]
+        corrupt = [draw(st.sampled_from(["missing-blank", "extra-line", "nonblank-separator"])), draw(st.integers(0, len(forms) - 1))]
     # ibench prints one result line per benchmark: the lines of one form need not be adjacent
     order = "adjacent"
     perm = None
@@ -146,7 +146,9 @@ def render(case):
         if case["corrupt"] and case["corrupt"] == ["extra-line", k]:
             out.append("")
         out += [f["name"], "Latency: %.3f cy" % f["lt"], "Throughput: %.3f cy" % f["tp"]]
-        if not (case["corrupt"] and case["corrupt"] == ["missing-blank", k]):
+        if case["corrupt"] and case["corrupt"] == ["nonblank-separator", k]:
+            out.append("----")  # the following blocks stay aligned: the import still has to stop here
+        elif not (case["corrupt"] and case["corrupt"] == ["missing-blank", k]):
             out.append("")
     return "\n".join(out) + "\n"
 
